@@ -239,3 +239,12 @@ package internal
 //@   loop 1 invariant I1: len(resp.PropStats) == old(len(resp.PropStats)) && (forall j int :: 0 <= j && j < len(resp.PropStats) ==> resp.PropStats[j] == old(resp.PropStats[j]))
 //@   loop 1 invariant I2: forall j int :: 0 <= j && j < #i ==> resp.PropStats[j].Status.Code != code
 //@   loop 1 invariant I3: raw != nil && raw.out == v
+
+//@ -- ---------------------------------------------------------------------------------------
+//@ -- The PropFindFunc literals (C11 / C13): each satisfies the clauses assumed for calls through a PropFindFunc value
+//@ -- (specs: funcvalue:internal.PropFindFunc). Their preconditions speak about the captured variables, which hold
+//@ -- where the literal is created (precondition R1 of the creating function).
+//@ func internal.PropFindValue$1(raw) (val, err)
+//@   allocates
+//@   ensures V1: mutations == old(mutations) && epCalls == old(epCalls) && epCode == old(epCode) && epVal == old(epVal)
+//@   ensures V2: err == nil
